@@ -1,6 +1,6 @@
 (* Dispatch.v — single entry point of the extracted model. *)
 From Coq Require Import ZArith List.
-From PV Require Import extract.Cases at4.Flat4 at5.Flat5 extract.Doms spec.FlatSpec extract.RxCases.
+From PV Require Import extract.Cases at4.Flat4 at5.Flat5 extract.Doms spec.FlatSpec extract.RxCases extract.ApiCases.
 Import ListNotations.
 Open Scope Z_scope.
 
@@ -21,5 +21,7 @@ Definition run_case (l : list Z) : list Z :=
   | 32 :: args => run_dom5 args
   | 40 :: args => run_spec args
   | 41 :: args => run_rx args
+  | 50 :: args => run_api_call args
+  | 51 :: args => run_api_getters args
   | _ => [-1]
   end.
